@@ -126,6 +126,7 @@ def cut(X3, lens):
     return pd.DataFrame({"dim_%d" % j: [pd.Series(X3[i, j, : lens[i]].copy()) for i in range(n)] for j in range(c)})
 
 
+CELL_STEP = [0]  # difference between the time index origins of consecutive instances (set per case)
 CELL_ORIGIN = [0]  # time index origin of the Series cells of nested frames built by wrap() (set per case)
 
 
@@ -135,12 +136,14 @@ def wrap(X3, container, labels=None, lens=None):
     if container != "nested":
         return X3.copy()
     X = panelpool.to_nested(X3)
-    if CELL_ORIGIN[0]:
-        # the cells' own time index need not start at 0: the data are the values
+    if CELL_ORIGIN[0] or CELL_STEP[0]:
+        # the cells' own time index need not start at 0, nor at the same label in every
+        # instance (windows cut out of one long recording keep their labels): the data are the values
         for j in range(X.shape[1]):
             for i in range(X.shape[0]):
                 c = X.iat[i, j]
-                c.index = pd.RangeIndex(CELL_ORIGIN[0], CELL_ORIGIN[0] + len(c))
+                o = CELL_ORIGIN[0] + i * CELL_STEP[0]
+                c.index = pd.RangeIndex(o, o + len(c))
     if STATIC[0]:
         X[X.columns[-1]] = X3[:, -1, 0].copy()
     if labels is not None:
@@ -156,6 +159,9 @@ def wrap(X3, container, labels=None, lens=None):
 def oracle(case, ctx):
     spec = case["spec"]
     CELL_ORIGIN[0] = int(case.get("cell_origin") or 0)
+    CELL_STEP[0] = int(case.get("cell_step") or 0)
+    if CELL_STEP[0]:
+        ctx.label("per_instance_time_labels")
     if CELL_ORIGIN[0]:
         ctx.label("cell_time_index_origin_%d" % CELL_ORIGIN[0])
     Xtr, y, Xap = data(case)
@@ -322,7 +328,7 @@ def cases(draw, family):
         "subset": draw(st.lists(st.integers(0, 5), min_size=1, max_size=4)),
         "fit_container": draw(st.sampled_from(["nested", "numpy3d"])),
         "apply_container": draw(st.sampled_from(["nested", "numpy3d"])),
-        "keep_labels": draw(st.booleans()), "prefit": draw(st.integers(0, 3)) == 0, "cell_origin": draw(st.sampled_from([0, 0, 3, -2])), "static_col": draw(st.booleans()), "int_panel": draw(st.integers(0, 4)) == 0,
+        "keep_labels": draw(st.booleans()), "prefit": draw(st.integers(0, 3)) == 0, "cell_origin": draw(st.sampled_from([0, 0, 3, -2])), "static_col": draw(st.booleans()), "cell_step": draw(st.sampled_from([0, 0, 0, 3, 7])), "int_panel": draw(st.integers(0, 4)) == 0,
         "unequal": draw(st.one_of(st.none(), st.lists(st.integers(0, 30), min_size=2, max_size=6))),
         "fit_labels": draw(st.sampled_from([None, None, "shifted", "reversed", "shuffled", "strings"])),
     }
